@@ -4,7 +4,8 @@ The state invariant of the refinement proofs (between two pushes, i.e. outside a
 bitmap length = row count when nullable; offsets start at 0, never decrease and end at the child length;
 fixed-size children hold n entries per row; struct children all at the row count; per-variant counters =
 child lengths, type ids and dense offsets in range; dictionary index ↔ values, keys in range; view
-descriptors designate bytes of the buffer.
+descriptors designate bytes of the buffer, which stays below 4 GiB (`push_scalar_value` / `end_seq` refuse offsets
+and lengths beyond `i32::MAX`).
 -/
 namespace SaModel.Build
 open SaModel SaModel.Spec
@@ -84,7 +85,8 @@ def WFB : B → Prop
   | .unknownVariant _ => True
   | .leaf _ _ v vals => VLen v vals.length
   | .bytes _ _ v offs data => OffsOK offs data.length ∧ VLen v (offs.length - 1)
-  | .bytesView _ _ v views buf => VLen v views.length ∧ ∀ d ∈ views, (decodeView [buf] d).isOk = true
+  | .bytesView _ _ v views buf =>
+    VLen v views.length ∧ (∀ d ∈ views, (decodeView [buf] d).isOk = true) ∧ buf.length < 2 ^ 32
   | .fixedSizeBinary _ n len v buf _ => VLen v len ∧ buf.length = len * n
   | .list _ _ _ v offs el => OffsOK offs (dec el).length ∧ VLen v (offs.length - 1) ∧ WFB el
   | .fixedSizeList _ _ n len v _ el => VLen v len ∧ (dec el).length = len * n ∧ WFB el
